@@ -59,7 +59,7 @@ static void encode(int ce, const uint8_t *d, size_t n, hx_buf *out) {
 }
 
 /* ---- oracle ---- */
-static struct { const uint8_t *want; size_t wn; int side; size_t bomb_limit; int check_bound; int expect_exact; int invalid_lzma; int multi_member; char desc[260]; const uint8_t *alt; size_t altn; } DT;
+static struct { const uint8_t *want; size_t wn; int side; size_t bomb_limit; int check_bound; int expect_exact; int invalid_lzma; int multi_member; int misparse; char desc[360]; const uint8_t *alt; size_t altn; } DT;
 static void inspect(htp_connp_t *c, hx_obs *o, void *ctx) {
     (void) ctx;
     htp_tx_t *tx = htp_list_get(c->conn->transactions, 0); if (!tx) { hx_verdict_add("C07", "no_tx", "%s: no transaction", DT.desc); return; }
@@ -76,6 +76,7 @@ static void inspect(htp_connp_t *c, hx_obs *o, void *ctx) {
             int suffix = got->n < DT.wn && got->n > 0 && !memcmp(got->p, DT.want + (DT.wn - got->n), got->n);
             const char *kind = restart && o->site_a[HX_SITE_DECOMP_RESTART] > 0 ? "payload_lost_after_restart" : restart && suffix ? "prefix_lost_in_passthrough" : "payload_mismatch";
             if (DT.invalid_lzma) kind = "invalid_lzma_lost";     /* input class: text that is not LZMA announced as lzma */
+            if (DT.misparse) kind = "misparse_output_taken_for_body";     /* input class: the first decoding attempt misreads the stream with some output before it fails */
             if (DT.multi_member) kind = got->n == 5 ? "multi_member_rest_lost" : "multi_member_mismatch";     /* input class: gzip body of two members; exactly the first member (5 bytes) delivered */
             hx_verdict_add("C07", kind, "%s: %zu bytes were delivered to the body callbacks, the payload has %zu (first difference at offset %zu; restart consumed-earlier=%ld)", DT.desc, got->n, DT.wn, i, o->site_a[HX_SITE_DECOMP_RESTART]);
         }
@@ -134,7 +135,7 @@ static void bomb_inspect(htp_connp_t *c, hx_obs *o, void *ctx) {
     int64_t lim = (int64_t) bomb_limit_cur, ratio = 2048 * (int64_t) compressed_offered;
     int64_t bound = (lim > ratio ? lim : ratio) + 8192;
     if (delivered - bound > bomb_worst_excess) bomb_worst_excess = delivered - bound;
-    if (delivered > bound) hx_verdict_add("C07", "bomb_bound", "%s: %lld decompressed bytes delivered for %zu compressed bytes offered, bound max(%zu, 2048 x %zu) + 8192 = %lld", DT.desc, (long long) delivered, compressed_offered, bomb_limit_cur, compressed_offered, (long long) bound);
+    if (delivered > bound) hx_verdict_add("C07", strstr(DT.desc, "chunk extension of 16384") ? "bomb_bound_chunk_extension" : "bomb_bound", "%s: %lld decompressed bytes delivered for %zu compressed bytes offered, bound max(%zu, 2048 x %zu) + 8192 = %lld", DT.desc, (long long) delivered, compressed_offered, bomb_limit_cur, compressed_offered, (long long) bound);
     if (DT.expect_exact && delivered != (int64_t) DT.wn) hx_verdict_add("C07", "layers", "%s: %lld bytes delivered, expected %zu", DT.desc, (long long) delivered, DT.wn);
 }
 static int bomb_outer_mode;      /* 7: the outer of two layers is Huffman-only, the wire size is about a 6500th of the payload instead of a 250000th */
@@ -171,6 +172,40 @@ static void bomb_case(size_t zeros, int layers, size_t limit, int layer_limit, i
     n_exec++; n_calls += O.ncalls; cx_set_add(&outs, hx_fnv(&O.tx[0].body_len[1], 8, (uint64_t) case_id));
     hx_report_verdicts(&S, &O, PROPS);
     hx_emit_sample(DT.desc);
+}
+/* input that the FIRST decoding attempt misreads with some output before it fails: (a) a valid zlib stream of one stored block whose bytes, read as raw
+ * deflate, are a stored block of 412 bytes; (b) plain JSON text announced as gzip / deflate, whose first byte reads as a fixed-Huffman block */
+static void misparse_case(int which, int ce) {
+    if (case_id++ % hx_shard_n != hx_shard_i || hx_deadline_hit()) return;
+    static hx_buf z, q, r, pay; hb_reset(&z); hb_reset(&q); hb_reset(&r); hb_reset(&pay);
+    if (which == 0) {
+        for (int i = 0; i < 65123; i++) hb_putc(&pay, i == 410 ? 0x07 : 'A' + i % 26);
+        static const uint8_t H[] = { 0x78, 0x9c, 0x01, 0x63, 0xfe, 0x9c, 0x01 }; hb_put(&z, H, sizeof H); hb_put(&z, pay.p, pay.n);
+        uLong ad = adler32(adler32(0L, Z_NULL, 0), pay.p, (uInt) pay.n); uint8_t t[4] = { (uint8_t) (ad >> 24), (uint8_t) (ad >> 16), (uint8_t) (ad >> 8), (uint8_t) ad }; hb_put(&z, t, 4);
+    } else { hb_puts(&pay, "{\"user\":\"alice\",\"token\":\"0123456789abcdef\",\"note\":\"this body is not compressed at all\"}"); hb_put(&z, pay.p, pay.n); }
+    hb_puts(&q, "GET /z HTTP/1.1\r\nHost: h\r\n\r\n"); hb_printf(&r, "HTTP/1.1 200 OK\r\nContent-Encoding: %s\r\nContent-Length: %zu\r\n\r\n", CENAME[ce], z.n); hb_put(&r, z.p, z.n);
+    hx_script_init(&S); S.cfg.req_decomp = 1; S.inspect = inspect;
+    DT.side = 1; DT.check_bound = 0; DT.expect_exact = 1; DT.alt = NULL; DT.invalid_lzma = 0; DT.misparse = 1; DT.want = pay.p; DT.wn = pay.n;
+    snprintf(DT.desc, sizeof DT.desc, "response body, %s, Content-Encoding: %s, Content-Length framing", which == 0 ? "valid zlib stream of ONE stored block (65123 bytes) that also reads as a raw-deflate stored block of 412 bytes" : "plain JSON text (not valid for the coding; its first byte reads as a fixed-Huffman raw-deflate block)", CEDESC[ce]);
+    S.label = DT.desc;
+    run_one(&q, &r, NULL, 0, 0); run_one(&q, &r, NULL, 0, which == 0 ? 1460 : 7);
+    DT.misparse = 0;
+}
+/* a bomb in chunked framing whose chunk-size line carries a long chunk extension: the extension is no compressed data */
+static void bomb_ext_case(size_t zeros, size_t ext) {
+    if (case_id++ % hx_shard_n != hx_shard_i || hx_deadline_hit()) return;
+    static hx_buf raw, z1, z2, q, r; hb_reset(&raw); hb_reset(&z1); hb_reset(&z2); hb_reset(&q); hb_reset(&r);
+    { uint8_t *zz = calloc(1, zeros); hb_put(&raw, zz, zeros); free(zz); }
+    gx_deflate(&z1, raw.p, raw.n, 0); gx_deflate(&z2, z1.p, z1.n, 0);
+    hb_puts(&q, "GET /b HTTP/1.1\r\nHost: h\r\n\r\n");
+    hb_printf(&r, "HTTP/1.1 200 OK\r\nContent-Encoding: gzip, gzip\r\nTransfer-Encoding: chunked\r\n\r\n%zx;", z2.n); for (size_t i = 0; i < ext; i++) hb_putc(&r, 'x'); hb_puts(&r, "\r\n"); hb_put(&r, z2.p, z2.n); hb_puts(&r, "\r\n0\r\n\r\n");
+    hx_script_init(&S); S.inspect = bomb_inspect; S.cfg.log_level = HTP_LOG_NONE;
+    bomb_limit_cur = 1048576; compressed_offered = z2.n; DT.expect_exact = 0; DT.side = 1; DT.invalid_lzma = 0;
+    snprintf(DT.desc, sizeof DT.desc, "bomb: %zu zero bytes in 2 gzip layers (%zu bytes of coded data), one chunk whose size line carries a chunk extension of %zu bytes", zeros, z2.n, ext);
+    S.label = DT.desc;
+    cx_build(&S, q.p, q.n, r.p, r.n, NULL, 0, 1);
+    if (hx_run(&S, &O)) return;
+    n_exec++; n_calls += O.ncalls; hx_report_verdicts(&S, &O, PROPS);
 }
 /* a bomb followed by a long incompressible tail, delivered in tiny chunks: after the bomb has been reported, every further
  * data call must add nothing (a refused output buffer must not be handed out again, call after call) */
@@ -284,6 +319,8 @@ static int worker(int argc, char **argv) {
             for (int zi = 0; zi < 2; zi++) bomb_tail_case(zi ? (12u << 20) : (1u << 20), thorough ? 7000 : 4000, layers, TLIM[li], ch);
         for (int at = 1; at <= 40; at++) clock_case(at);
         for (int side = 1; side >= 0; side--) for (int fr = 0; fr < 2; fr++) for (int ch = 0; ch < 2; ch++) multi_case(side, fr, ch ? 7 : 0);
+        misparse_case(0, CE_DEFLATE_ZLIB); misparse_case(1, CE_GZIP); misparse_case(1, CE_DEFLATE_ZLIB);
+        bomb_ext_case(8u << 20, 0); bomb_ext_case(8u << 20, 16384);
         /* epochs: the harness default (1e9), 1, and three present-day values whose microsecond count truncated to 32 bits is positive / negative / small */
         static const uint32_t EPOCH[] = { 0, 1, 1790000636u, 1790000000u, 1790000123u };
         static const int LCE[] = { CE_GZIP, CE_DEFLATE_ZLIB, CE_LZMA };
